@@ -11,6 +11,13 @@ use super::tag::parse_generic_decl_list;
 use super::{expect_token, if_token_bump, parse_description};
 
 pub fn parse_type(p: &mut LuaDocParser) -> DocParseResult {
+    p.enter_type_level()?;
+    let result = parse_type_unchecked(p);
+    p.leave_type_level();
+    result
+}
+
+fn parse_type_unchecked(p: &mut LuaDocParser) -> DocParseResult {
     if p.current_token() == LuaTokenKind::TkDocContinueOr {
         return parse_multi_line_union_type(p);
     }
@@ -104,6 +111,13 @@ fn parse_extends_conditional_type(
 // keyof <type>, -1
 // <type> | <type> , <type> & <type>, <type> in keyof <type>
 fn parse_sub_type(p: &mut LuaDocParser, limit: i32) -> DocParseResult {
+    p.enter_type_level()?;
+    let result = parse_sub_type_unchecked(p, limit);
+    p.leave_type_level();
+    result
+}
+
+fn parse_sub_type_unchecked(p: &mut LuaDocParser, limit: i32) -> DocParseResult {
     let uop = LuaOpKind::to_type_unary_operator(p.current_token());
     let mut cm = if uop != LuaTypeUnaryOperator::None {
         let range = p.current_token_range();
